@@ -91,6 +91,36 @@ let rec parse_modifiers = function
 let set_of_list l =
   fold_right set_insert [] l
 
+(** val is_ascii_alpha : coq_N -> bool **)
+
+let is_ascii_alpha c =
+  (||) (is_ascii_lower c) (is_ascii_upper c)
+
+(** val is_ascii_digit : coq_N -> bool **)
+
+let is_ascii_digit c =
+  (&&) (N.leb (Npos (Coq_xO (Coq_xO (Coq_xO (Coq_xO (Coq_xI Coq_xH)))))) c)
+    (N.leb c (Npos (Coq_xI (Coq_xO (Coq_xO (Coq_xI (Coq_xI Coq_xH)))))))
+
+(** val is_simple_ident : str -> bool **)
+
+let is_simple_ident = function
+| [] -> false
+| c :: r ->
+  (&&)
+    ((||)
+      ((||) (is_ascii_alpha c)
+        (N.eqb c (Npos (Coq_xI (Coq_xI (Coq_xI (Coq_xI (Coq_xI (Coq_xO
+          Coq_xH)))))))))
+      (N.eqb c (Npos (Coq_xO (Coq_xO (Coq_xI (Coq_xO (Coq_xO Coq_xH))))))))
+    (forallb (fun c0 ->
+      (||)
+        ((||) ((||) (is_ascii_alpha c0) (is_ascii_digit c0))
+          (N.eqb c0 (Npos (Coq_xI (Coq_xI (Coq_xI (Coq_xI (Coq_xI (Coq_xO
+            Coq_xH)))))))))
+        (N.eqb c0 (Npos (Coq_xO (Coq_xO (Coq_xI (Coq_xO (Coq_xO Coq_xH))))))))
+      r)
+
 (** val transform_modifiers : str list -> bool -> node option **)
 
 let transform_modifiers mods quote =
@@ -98,8 +128,9 @@ let transform_modifiers mods quote =
   | [] -> None
   | _ :: _ ->
     Some (Obj
-      (map (fun m -> KV ((if quote then mk_str m else IdName m), (Bool
-        true))) mods))
+      (map (fun m -> KV
+        ((if (||) quote (negb (is_simple_ident m)) then mk_str m else IdName m),
+        (Bool true))) mods))
 
 (** val nonempty_mods : str list option -> bool **)
 
@@ -345,6 +376,284 @@ let parse_v_model value is_component argument splitted s =
            ((Ascii (false, true, true, true, false, true, false, false)),
            EmptyString))))))))))))))))))))))))))))))))))))))))))))))))))))))))))))))))))))))))))))))))))))))))))))))))))))))))))
            s
+       in
+       let s1 =
+         match empty_ident with
+         | Arr elems ->
+           (match elems with
+            | [] ->
+              add_diag (String ((Ascii (false, false, true, false, true,
+                false, true, false)), (String ((Ascii (false, false, false,
+                true, false, true, true, false)), (String ((Ascii (true,
+                false, true, false, false, true, true, false)), (String
+                ((Ascii (false, false, false, false, false, true, false,
+                false)), (String ((Ascii (false, true, true, false, false,
+                true, true, false)), (String ((Ascii (true, false, false,
+                true, false, true, true, false)), (String ((Ascii (false,
+                true, false, false, true, true, true, false)), (String
+                ((Ascii (true, true, false, false, true, true, true, false)),
+                (String ((Ascii (false, false, true, false, true, true, true,
+                false)), (String ((Ascii (false, false, false, false, false,
+                true, false, false)), (String ((Ascii (true, false, true,
+                false, false, true, true, false)), (String ((Ascii (false,
+                false, true, true, false, true, true, false)), (String
+                ((Ascii (true, false, true, false, false, true, true,
+                false)), (String ((Ascii (true, false, true, true, false,
+                true, true, false)), (String ((Ascii (true, false, true,
+                false, false, true, true, false)), (String ((Ascii (false,
+                true, true, true, false, true, true, false)), (String ((Ascii
+                (false, false, true, false, true, true, true, false)),
+                (String ((Ascii (false, false, false, false, false, true,
+                false, false)), (String ((Ascii (true, true, true, true,
+                false, true, true, false)), (String ((Ascii (false, true,
+                true, false, false, true, true, false)), (String ((Ascii
+                (false, false, false, false, false, true, false, false)),
+                (String ((Ascii (false, false, false, false, false, true,
+                true, false)), (String ((Ascii (false, true, true, false,
+                true, true, true, false)), (String ((Ascii (true, false,
+                true, true, false, true, false, false)), (String ((Ascii
+                (true, false, true, true, false, true, true, false)), (String
+                ((Ascii (true, true, true, true, false, true, true, false)),
+                (String ((Ascii (false, false, true, false, false, true,
+                true, false)), (String ((Ascii (true, false, true, false,
+                false, true, true, false)), (String ((Ascii (false, false,
+                true, true, false, true, true, false)), (String ((Ascii
+                (false, false, false, false, false, true, true, false)),
+                (String ((Ascii (false, false, false, false, false, true,
+                false, false)), (String ((Ascii (true, false, false, false,
+                false, true, true, false)), (String ((Ascii (false, true,
+                false, false, true, true, true, false)), (String ((Ascii
+                (false, true, false, false, true, true, true, false)),
+                (String ((Ascii (true, false, false, false, false, true,
+                true, false)), (String ((Ascii (true, false, false, true,
+                true, true, true, false)), (String ((Ascii (false, false,
+                false, false, false, true, false, false)), (String ((Ascii
+                (true, false, true, true, false, true, true, false)), (String
+                ((Ascii (true, false, true, false, true, true, true, false)),
+                (String ((Ascii (true, true, false, false, true, true, true,
+                false)), (String ((Ascii (false, false, true, false, true,
+                true, true, false)), (String ((Ascii (false, false, false,
+                false, false, true, false, false)), (String ((Ascii (false,
+                true, false, false, false, true, true, false)), (String
+                ((Ascii (true, false, true, false, false, true, true,
+                false)), (String ((Ascii (false, false, false, false, false,
+                true, false, false)), (String ((Ascii (false, false, true,
+                false, true, true, true, false)), (String ((Ascii (false,
+                false, false, true, false, true, true, false)), (String
+                ((Ascii (true, false, true, false, false, true, true,
+                false)), (String ((Ascii (false, false, false, false, false,
+                true, false, false)), (String ((Ascii (false, true, false,
+                false, false, true, true, false)), (String ((Ascii (true,
+                true, true, true, false, true, true, false)), (String ((Ascii
+                (true, false, true, false, true, true, true, false)), (String
+                ((Ascii (false, true, true, true, false, true, true, false)),
+                (String ((Ascii (false, false, true, false, false, true,
+                true, false)), (String ((Ascii (false, false, false, false,
+                false, true, false, false)), (String ((Ascii (true, false,
+                true, false, false, true, true, false)), (String ((Ascii
+                (false, false, false, true, true, true, true, false)),
+                (String ((Ascii (false, false, false, false, true, true,
+                true, false)), (String ((Ascii (false, true, false, false,
+                true, true, true, false)), (String ((Ascii (true, false,
+                true, false, false, true, true, false)), (String ((Ascii
+                (true, true, false, false, true, true, true, false)), (String
+                ((Ascii (true, true, false, false, true, true, true, false)),
+                (String ((Ascii (true, false, false, true, false, true, true,
+                false)), (String ((Ascii (true, true, true, true, false,
+                true, true, false)), (String ((Ascii (false, true, true,
+                true, false, true, true, false)), (String ((Ascii (false,
+                true, true, true, false, true, false, false)),
+                EmptyString))))))))))))))))))))))))))))))))))))))))))))))))))))))))))))))))))))))))))))))))))))))))))))))))))))))))))))))))))))))))))))))))))))
+                s0
+            | n :: _ ->
+              (match n with
+               | Elem (spread, _) ->
+                 if spread
+                 then add_diag (String ((Ascii (false, false, true, false,
+                        true, false, true, false)), (String ((Ascii (false,
+                        false, false, true, false, true, true, false)),
+                        (String ((Ascii (true, false, true, false, false,
+                        true, true, false)), (String ((Ascii (false, false,
+                        false, false, false, true, false, false)), (String
+                        ((Ascii (false, true, true, false, false, true, true,
+                        false)), (String ((Ascii (true, false, false, true,
+                        false, true, true, false)), (String ((Ascii (false,
+                        true, false, false, true, true, true, false)),
+                        (String ((Ascii (true, true, false, false, true,
+                        true, true, false)), (String ((Ascii (false, false,
+                        true, false, true, true, true, false)), (String
+                        ((Ascii (false, false, false, false, false, true,
+                        false, false)), (String ((Ascii (true, false, true,
+                        false, false, true, true, false)), (String ((Ascii
+                        (false, false, true, true, false, true, true,
+                        false)), (String ((Ascii (true, false, true, false,
+                        false, true, true, false)), (String ((Ascii (true,
+                        false, true, true, false, true, true, false)),
+                        (String ((Ascii (true, false, true, false, false,
+                        true, true, false)), (String ((Ascii (false, true,
+                        true, true, false, true, true, false)), (String
+                        ((Ascii (false, false, true, false, true, true, true,
+                        false)), (String ((Ascii (false, false, false, false,
+                        false, true, false, false)), (String ((Ascii (true,
+                        true, true, true, false, true, true, false)), (String
+                        ((Ascii (false, true, true, false, false, true, true,
+                        false)), (String ((Ascii (false, false, false, false,
+                        false, true, false, false)), (String ((Ascii (false,
+                        false, false, false, false, true, true, false)),
+                        (String ((Ascii (false, true, true, false, true,
+                        true, true, false)), (String ((Ascii (true, false,
+                        true, true, false, true, false, false)), (String
+                        ((Ascii (true, false, true, true, false, true, true,
+                        false)), (String ((Ascii (true, true, true, true,
+                        false, true, true, false)), (String ((Ascii (false,
+                        false, true, false, false, true, true, false)),
+                        (String ((Ascii (true, false, true, false, false,
+                        true, true, false)), (String ((Ascii (false, false,
+                        true, true, false, true, true, false)), (String
+                        ((Ascii (false, false, false, false, false, true,
+                        true, false)), (String ((Ascii (false, false, false,
+                        false, false, true, false, false)), (String ((Ascii
+                        (true, false, false, false, false, true, true,
+                        false)), (String ((Ascii (false, true, false, false,
+                        true, true, true, false)), (String ((Ascii (false,
+                        true, false, false, true, true, true, false)),
+                        (String ((Ascii (true, false, false, false, false,
+                        true, true, false)), (String ((Ascii (true, false,
+                        false, true, true, true, true, false)), (String
+                        ((Ascii (false, false, false, false, false, true,
+                        false, false)), (String ((Ascii (true, false, true,
+                        true, false, true, true, false)), (String ((Ascii
+                        (true, false, true, false, true, true, true, false)),
+                        (String ((Ascii (true, true, false, false, true,
+                        true, true, false)), (String ((Ascii (false, false,
+                        true, false, true, true, true, false)), (String
+                        ((Ascii (false, false, false, false, false, true,
+                        false, false)), (String ((Ascii (false, true, false,
+                        false, false, true, true, false)), (String ((Ascii
+                        (true, false, true, false, false, true, true,
+                        false)), (String ((Ascii (false, false, false, false,
+                        false, true, false, false)), (String ((Ascii (false,
+                        false, true, false, true, true, true, false)),
+                        (String ((Ascii (false, false, false, true, false,
+                        true, true, false)), (String ((Ascii (true, false,
+                        true, false, false, true, true, false)), (String
+                        ((Ascii (false, false, false, false, false, true,
+                        false, false)), (String ((Ascii (false, true, false,
+                        false, false, true, true, false)), (String ((Ascii
+                        (true, true, true, true, false, true, true, false)),
+                        (String ((Ascii (true, false, true, false, true,
+                        true, true, false)), (String ((Ascii (false, true,
+                        true, true, false, true, true, false)), (String
+                        ((Ascii (false, false, true, false, false, true,
+                        true, false)), (String ((Ascii (false, false, false,
+                        false, false, true, false, false)), (String ((Ascii
+                        (true, false, true, false, false, true, true,
+                        false)), (String ((Ascii (false, false, false, true,
+                        true, true, true, false)), (String ((Ascii (false,
+                        false, false, false, true, true, true, false)),
+                        (String ((Ascii (false, true, false, false, true,
+                        true, true, false)), (String ((Ascii (true, false,
+                        true, false, false, true, true, false)), (String
+                        ((Ascii (true, true, false, false, true, true, true,
+                        false)), (String ((Ascii (true, true, false, false,
+                        true, true, true, false)), (String ((Ascii (true,
+                        false, false, true, false, true, true, false)),
+                        (String ((Ascii (true, true, true, true, false, true,
+                        true, false)), (String ((Ascii (false, true, true,
+                        true, false, true, true, false)), (String ((Ascii
+                        (false, true, true, true, false, true, false,
+                        false)),
+                        EmptyString))))))))))))))))))))))))))))))))))))))))))))))))))))))))))))))))))))))))))))))))))))))))))))))))))))))))))))))))))))))))))))))))))))
+                        s0
+                 else s0
+               | _ ->
+                 add_diag (String ((Ascii (false, false, true, false, true,
+                   false, true, false)), (String ((Ascii (false, false,
+                   false, true, false, true, true, false)), (String ((Ascii
+                   (true, false, true, false, false, true, true, false)),
+                   (String ((Ascii (false, false, false, false, false, true,
+                   false, false)), (String ((Ascii (false, true, true, false,
+                   false, true, true, false)), (String ((Ascii (true, false,
+                   false, true, false, true, true, false)), (String ((Ascii
+                   (false, true, false, false, true, true, true, false)),
+                   (String ((Ascii (true, true, false, false, true, true,
+                   true, false)), (String ((Ascii (false, false, true, false,
+                   true, true, true, false)), (String ((Ascii (false, false,
+                   false, false, false, true, false, false)), (String ((Ascii
+                   (true, false, true, false, false, true, true, false)),
+                   (String ((Ascii (false, false, true, true, false, true,
+                   true, false)), (String ((Ascii (true, false, true, false,
+                   false, true, true, false)), (String ((Ascii (true, false,
+                   true, true, false, true, true, false)), (String ((Ascii
+                   (true, false, true, false, false, true, true, false)),
+                   (String ((Ascii (false, true, true, true, false, true,
+                   true, false)), (String ((Ascii (false, false, true, false,
+                   true, true, true, false)), (String ((Ascii (false, false,
+                   false, false, false, true, false, false)), (String ((Ascii
+                   (true, true, true, true, false, true, true, false)),
+                   (String ((Ascii (false, true, true, false, false, true,
+                   true, false)), (String ((Ascii (false, false, false,
+                   false, false, true, false, false)), (String ((Ascii
+                   (false, false, false, false, false, true, true, false)),
+                   (String ((Ascii (false, true, true, false, true, true,
+                   true, false)), (String ((Ascii (true, false, true, true,
+                   false, true, false, false)), (String ((Ascii (true, false,
+                   true, true, false, true, true, false)), (String ((Ascii
+                   (true, true, true, true, false, true, true, false)),
+                   (String ((Ascii (false, false, true, false, false, true,
+                   true, false)), (String ((Ascii (true, false, true, false,
+                   false, true, true, false)), (String ((Ascii (false, false,
+                   true, true, false, true, true, false)), (String ((Ascii
+                   (false, false, false, false, false, true, true, false)),
+                   (String ((Ascii (false, false, false, false, false, true,
+                   false, false)), (String ((Ascii (true, false, false,
+                   false, false, true, true, false)), (String ((Ascii (false,
+                   true, false, false, true, true, true, false)), (String
+                   ((Ascii (false, true, false, false, true, true, true,
+                   false)), (String ((Ascii (true, false, false, false,
+                   false, true, true, false)), (String ((Ascii (true, false,
+                   false, true, true, true, true, false)), (String ((Ascii
+                   (false, false, false, false, false, true, false, false)),
+                   (String ((Ascii (true, false, true, true, false, true,
+                   true, false)), (String ((Ascii (true, false, true, false,
+                   true, true, true, false)), (String ((Ascii (true, true,
+                   false, false, true, true, true, false)), (String ((Ascii
+                   (false, false, true, false, true, true, true, false)),
+                   (String ((Ascii (false, false, false, false, false, true,
+                   false, false)), (String ((Ascii (false, true, false,
+                   false, false, true, true, false)), (String ((Ascii (true,
+                   false, true, false, false, true, true, false)), (String
+                   ((Ascii (false, false, false, false, false, true, false,
+                   false)), (String ((Ascii (false, false, true, false, true,
+                   true, true, false)), (String ((Ascii (false, false, false,
+                   true, false, true, true, false)), (String ((Ascii (true,
+                   false, true, false, false, true, true, false)), (String
+                   ((Ascii (false, false, false, false, false, true, false,
+                   false)), (String ((Ascii (false, true, false, false,
+                   false, true, true, false)), (String ((Ascii (true, true,
+                   true, true, false, true, true, false)), (String ((Ascii
+                   (true, false, true, false, true, true, true, false)),
+                   (String ((Ascii (false, true, true, true, false, true,
+                   true, false)), (String ((Ascii (false, false, true, false,
+                   false, true, true, false)), (String ((Ascii (false, false,
+                   false, false, false, true, false, false)), (String ((Ascii
+                   (true, false, true, false, false, true, true, false)),
+                   (String ((Ascii (false, false, false, true, true, true,
+                   true, false)), (String ((Ascii (false, false, false,
+                   false, true, true, true, false)), (String ((Ascii (false,
+                   true, false, false, true, true, true, false)), (String
+                   ((Ascii (true, false, true, false, false, true, true,
+                   false)), (String ((Ascii (true, true, false, false, true,
+                   true, true, false)), (String ((Ascii (true, true, false,
+                   false, true, true, true, false)), (String ((Ascii (true,
+                   false, false, true, false, true, true, false)), (String
+                   ((Ascii (true, true, true, true, false, true, true,
+                   false)), (String ((Ascii (false, true, true, true, false,
+                   true, true, false)), (String ((Ascii (false, true, true,
+                   true, false, true, false, false)),
+                   EmptyString))))))))))))))))))))))))))))))))))))))))))))))))))))))))))))))))))))))))))))))))))))))))))))))))))))))))))))))))))))))))))))))))))))
+                   s0))
+         | _ -> s0
        in
        let (p, modifiers) =
          match empty_ident with
@@ -1271,8 +1580,286 @@ let parse_v_model value is_component argument splitted s =
         else argument0),
        (match modifiers with
         | Some m -> transform_modifiers m is_component
-        | None -> None), value')), s0)
+        | None -> None), value')), s1)
      | _ ->
+       let s0 =
+         match e with
+         | Arr elems ->
+           (match elems with
+            | [] ->
+              add_diag (String ((Ascii (false, false, true, false, true,
+                false, true, false)), (String ((Ascii (false, false, false,
+                true, false, true, true, false)), (String ((Ascii (true,
+                false, true, false, false, true, true, false)), (String
+                ((Ascii (false, false, false, false, false, true, false,
+                false)), (String ((Ascii (false, true, true, false, false,
+                true, true, false)), (String ((Ascii (true, false, false,
+                true, false, true, true, false)), (String ((Ascii (false,
+                true, false, false, true, true, true, false)), (String
+                ((Ascii (true, true, false, false, true, true, true, false)),
+                (String ((Ascii (false, false, true, false, true, true, true,
+                false)), (String ((Ascii (false, false, false, false, false,
+                true, false, false)), (String ((Ascii (true, false, true,
+                false, false, true, true, false)), (String ((Ascii (false,
+                false, true, true, false, true, true, false)), (String
+                ((Ascii (true, false, true, false, false, true, true,
+                false)), (String ((Ascii (true, false, true, true, false,
+                true, true, false)), (String ((Ascii (true, false, true,
+                false, false, true, true, false)), (String ((Ascii (false,
+                true, true, true, false, true, true, false)), (String ((Ascii
+                (false, false, true, false, true, true, true, false)),
+                (String ((Ascii (false, false, false, false, false, true,
+                false, false)), (String ((Ascii (true, true, true, true,
+                false, true, true, false)), (String ((Ascii (false, true,
+                true, false, false, true, true, false)), (String ((Ascii
+                (false, false, false, false, false, true, false, false)),
+                (String ((Ascii (false, false, false, false, false, true,
+                true, false)), (String ((Ascii (false, true, true, false,
+                true, true, true, false)), (String ((Ascii (true, false,
+                true, true, false, true, false, false)), (String ((Ascii
+                (true, false, true, true, false, true, true, false)), (String
+                ((Ascii (true, true, true, true, false, true, true, false)),
+                (String ((Ascii (false, false, true, false, false, true,
+                true, false)), (String ((Ascii (true, false, true, false,
+                false, true, true, false)), (String ((Ascii (false, false,
+                true, true, false, true, true, false)), (String ((Ascii
+                (false, false, false, false, false, true, true, false)),
+                (String ((Ascii (false, false, false, false, false, true,
+                false, false)), (String ((Ascii (true, false, false, false,
+                false, true, true, false)), (String ((Ascii (false, true,
+                false, false, true, true, true, false)), (String ((Ascii
+                (false, true, false, false, true, true, true, false)),
+                (String ((Ascii (true, false, false, false, false, true,
+                true, false)), (String ((Ascii (true, false, false, true,
+                true, true, true, false)), (String ((Ascii (false, false,
+                false, false, false, true, false, false)), (String ((Ascii
+                (true, false, true, true, false, true, true, false)), (String
+                ((Ascii (true, false, true, false, true, true, true, false)),
+                (String ((Ascii (true, true, false, false, true, true, true,
+                false)), (String ((Ascii (false, false, true, false, true,
+                true, true, false)), (String ((Ascii (false, false, false,
+                false, false, true, false, false)), (String ((Ascii (false,
+                true, false, false, false, true, true, false)), (String
+                ((Ascii (true, false, true, false, false, true, true,
+                false)), (String ((Ascii (false, false, false, false, false,
+                true, false, false)), (String ((Ascii (false, false, true,
+                false, true, true, true, false)), (String ((Ascii (false,
+                false, false, true, false, true, true, false)), (String
+                ((Ascii (true, false, true, false, false, true, true,
+                false)), (String ((Ascii (false, false, false, false, false,
+                true, false, false)), (String ((Ascii (false, true, false,
+                false, false, true, true, false)), (String ((Ascii (true,
+                true, true, true, false, true, true, false)), (String ((Ascii
+                (true, false, true, false, true, true, true, false)), (String
+                ((Ascii (false, true, true, true, false, true, true, false)),
+                (String ((Ascii (false, false, true, false, false, true,
+                true, false)), (String ((Ascii (false, false, false, false,
+                false, true, false, false)), (String ((Ascii (true, false,
+                true, false, false, true, true, false)), (String ((Ascii
+                (false, false, false, true, true, true, true, false)),
+                (String ((Ascii (false, false, false, false, true, true,
+                true, false)), (String ((Ascii (false, true, false, false,
+                true, true, true, false)), (String ((Ascii (true, false,
+                true, false, false, true, true, false)), (String ((Ascii
+                (true, true, false, false, true, true, true, false)), (String
+                ((Ascii (true, true, false, false, true, true, true, false)),
+                (String ((Ascii (true, false, false, true, false, true, true,
+                false)), (String ((Ascii (true, true, true, true, false,
+                true, true, false)), (String ((Ascii (false, true, true,
+                true, false, true, true, false)), (String ((Ascii (false,
+                true, true, true, false, true, false, false)),
+                EmptyString))))))))))))))))))))))))))))))))))))))))))))))))))))))))))))))))))))))))))))))))))))))))))))))))))))))))))))))))))))))))))))))))))))
+                s
+            | n :: _ ->
+              (match n with
+               | Elem (spread, _) ->
+                 if spread
+                 then add_diag (String ((Ascii (false, false, true, false,
+                        true, false, true, false)), (String ((Ascii (false,
+                        false, false, true, false, true, true, false)),
+                        (String ((Ascii (true, false, true, false, false,
+                        true, true, false)), (String ((Ascii (false, false,
+                        false, false, false, true, false, false)), (String
+                        ((Ascii (false, true, true, false, false, true, true,
+                        false)), (String ((Ascii (true, false, false, true,
+                        false, true, true, false)), (String ((Ascii (false,
+                        true, false, false, true, true, true, false)),
+                        (String ((Ascii (true, true, false, false, true,
+                        true, true, false)), (String ((Ascii (false, false,
+                        true, false, true, true, true, false)), (String
+                        ((Ascii (false, false, false, false, false, true,
+                        false, false)), (String ((Ascii (true, false, true,
+                        false, false, true, true, false)), (String ((Ascii
+                        (false, false, true, true, false, true, true,
+                        false)), (String ((Ascii (true, false, true, false,
+                        false, true, true, false)), (String ((Ascii (true,
+                        false, true, true, false, true, true, false)),
+                        (String ((Ascii (true, false, true, false, false,
+                        true, true, false)), (String ((Ascii (false, true,
+                        true, true, false, true, true, false)), (String
+                        ((Ascii (false, false, true, false, true, true, true,
+                        false)), (String ((Ascii (false, false, false, false,
+                        false, true, false, false)), (String ((Ascii (true,
+                        true, true, true, false, true, true, false)), (String
+                        ((Ascii (false, true, true, false, false, true, true,
+                        false)), (String ((Ascii (false, false, false, false,
+                        false, true, false, false)), (String ((Ascii (false,
+                        false, false, false, false, true, true, false)),
+                        (String ((Ascii (false, true, true, false, true,
+                        true, true, false)), (String ((Ascii (true, false,
+                        true, true, false, true, false, false)), (String
+                        ((Ascii (true, false, true, true, false, true, true,
+                        false)), (String ((Ascii (true, true, true, true,
+                        false, true, true, false)), (String ((Ascii (false,
+                        false, true, false, false, true, true, false)),
+                        (String ((Ascii (true, false, true, false, false,
+                        true, true, false)), (String ((Ascii (false, false,
+                        true, true, false, true, true, false)), (String
+                        ((Ascii (false, false, false, false, false, true,
+                        true, false)), (String ((Ascii (false, false, false,
+                        false, false, true, false, false)), (String ((Ascii
+                        (true, false, false, false, false, true, true,
+                        false)), (String ((Ascii (false, true, false, false,
+                        true, true, true, false)), (String ((Ascii (false,
+                        true, false, false, true, true, true, false)),
+                        (String ((Ascii (true, false, false, false, false,
+                        true, true, false)), (String ((Ascii (true, false,
+                        false, true, true, true, true, false)), (String
+                        ((Ascii (false, false, false, false, false, true,
+                        false, false)), (String ((Ascii (true, false, true,
+                        true, false, true, true, false)), (String ((Ascii
+                        (true, false, true, false, true, true, true, false)),
+                        (String ((Ascii (true, true, false, false, true,
+                        true, true, false)), (String ((Ascii (false, false,
+                        true, false, true, true, true, false)), (String
+                        ((Ascii (false, false, false, false, false, true,
+                        false, false)), (String ((Ascii (false, true, false,
+                        false, false, true, true, false)), (String ((Ascii
+                        (true, false, true, false, false, true, true,
+                        false)), (String ((Ascii (false, false, false, false,
+                        false, true, false, false)), (String ((Ascii (false,
+                        false, true, false, true, true, true, false)),
+                        (String ((Ascii (false, false, false, true, false,
+                        true, true, false)), (String ((Ascii (true, false,
+                        true, false, false, true, true, false)), (String
+                        ((Ascii (false, false, false, false, false, true,
+                        false, false)), (String ((Ascii (false, true, false,
+                        false, false, true, true, false)), (String ((Ascii
+                        (true, true, true, true, false, true, true, false)),
+                        (String ((Ascii (true, false, true, false, true,
+                        true, true, false)), (String ((Ascii (false, true,
+                        true, true, false, true, true, false)), (String
+                        ((Ascii (false, false, true, false, false, true,
+                        true, false)), (String ((Ascii (false, false, false,
+                        false, false, true, false, false)), (String ((Ascii
+                        (true, false, true, false, false, true, true,
+                        false)), (String ((Ascii (false, false, false, true,
+                        true, true, true, false)), (String ((Ascii (false,
+                        false, false, false, true, true, true, false)),
+                        (String ((Ascii (false, true, false, false, true,
+                        true, true, false)), (String ((Ascii (true, false,
+                        true, false, false, true, true, false)), (String
+                        ((Ascii (true, true, false, false, true, true, true,
+                        false)), (String ((Ascii (true, true, false, false,
+                        true, true, true, false)), (String ((Ascii (true,
+                        false, false, true, false, true, true, false)),
+                        (String ((Ascii (true, true, true, true, false, true,
+                        true, false)), (String ((Ascii (false, true, true,
+                        true, false, true, true, false)), (String ((Ascii
+                        (false, true, true, true, false, true, false,
+                        false)),
+                        EmptyString))))))))))))))))))))))))))))))))))))))))))))))))))))))))))))))))))))))))))))))))))))))))))))))))))))))))))))))))))))))))))))))))))))
+                        s
+                 else s
+               | _ ->
+                 add_diag (String ((Ascii (false, false, true, false, true,
+                   false, true, false)), (String ((Ascii (false, false,
+                   false, true, false, true, true, false)), (String ((Ascii
+                   (true, false, true, false, false, true, true, false)),
+                   (String ((Ascii (false, false, false, false, false, true,
+                   false, false)), (String ((Ascii (false, true, true, false,
+                   false, true, true, false)), (String ((Ascii (true, false,
+                   false, true, false, true, true, false)), (String ((Ascii
+                   (false, true, false, false, true, true, true, false)),
+                   (String ((Ascii (true, true, false, false, true, true,
+                   true, false)), (String ((Ascii (false, false, true, false,
+                   true, true, true, false)), (String ((Ascii (false, false,
+                   false, false, false, true, false, false)), (String ((Ascii
+                   (true, false, true, false, false, true, true, false)),
+                   (String ((Ascii (false, false, true, true, false, true,
+                   true, false)), (String ((Ascii (true, false, true, false,
+                   false, true, true, false)), (String ((Ascii (true, false,
+                   true, true, false, true, true, false)), (String ((Ascii
+                   (true, false, true, false, false, true, true, false)),
+                   (String ((Ascii (false, true, true, true, false, true,
+                   true, false)), (String ((Ascii (false, false, true, false,
+                   true, true, true, false)), (String ((Ascii (false, false,
+                   false, false, false, true, false, false)), (String ((Ascii
+                   (true, true, true, true, false, true, true, false)),
+                   (String ((Ascii (false, true, true, false, false, true,
+                   true, false)), (String ((Ascii (false, false, false,
+                   false, false, true, false, false)), (String ((Ascii
+                   (false, false, false, false, false, true, true, false)),
+                   (String ((Ascii (false, true, true, false, true, true,
+                   true, false)), (String ((Ascii (true, false, true, true,
+                   false, true, false, false)), (String ((Ascii (true, false,
+                   true, true, false, true, true, false)), (String ((Ascii
+                   (true, true, true, true, false, true, true, false)),
+                   (String ((Ascii (false, false, true, false, false, true,
+                   true, false)), (String ((Ascii (true, false, true, false,
+                   false, true, true, false)), (String ((Ascii (false, false,
+                   true, true, false, true, true, false)), (String ((Ascii
+                   (false, false, false, false, false, true, true, false)),
+                   (String ((Ascii (false, false, false, false, false, true,
+                   false, false)), (String ((Ascii (true, false, false,
+                   false, false, true, true, false)), (String ((Ascii (false,
+                   true, false, false, true, true, true, false)), (String
+                   ((Ascii (false, true, false, false, true, true, true,
+                   false)), (String ((Ascii (true, false, false, false,
+                   false, true, true, false)), (String ((Ascii (true, false,
+                   false, true, true, true, true, false)), (String ((Ascii
+                   (false, false, false, false, false, true, false, false)),
+                   (String ((Ascii (true, false, true, true, false, true,
+                   true, false)), (String ((Ascii (true, false, true, false,
+                   true, true, true, false)), (String ((Ascii (true, true,
+                   false, false, true, true, true, false)), (String ((Ascii
+                   (false, false, true, false, true, true, true, false)),
+                   (String ((Ascii (false, false, false, false, false, true,
+                   false, false)), (String ((Ascii (false, true, false,
+                   false, false, true, true, false)), (String ((Ascii (true,
+                   false, true, false, false, true, true, false)), (String
+                   ((Ascii (false, false, false, false, false, true, false,
+                   false)), (String ((Ascii (false, false, true, false, true,
+                   true, true, false)), (String ((Ascii (false, false, false,
+                   true, false, true, true, false)), (String ((Ascii (true,
+                   false, true, false, false, true, true, false)), (String
+                   ((Ascii (false, false, false, false, false, true, false,
+                   false)), (String ((Ascii (false, true, false, false,
+                   false, true, true, false)), (String ((Ascii (true, true,
+                   true, true, false, true, true, false)), (String ((Ascii
+                   (true, false, true, false, true, true, true, false)),
+                   (String ((Ascii (false, true, true, true, false, true,
+                   true, false)), (String ((Ascii (false, false, true, false,
+                   false, true, true, false)), (String ((Ascii (false, false,
+                   false, false, false, true, false, false)), (String ((Ascii
+                   (true, false, true, false, false, true, true, false)),
+                   (String ((Ascii (false, false, false, true, true, true,
+                   true, false)), (String ((Ascii (false, false, false,
+                   false, true, true, true, false)), (String ((Ascii (false,
+                   true, false, false, true, true, true, false)), (String
+                   ((Ascii (true, false, true, false, false, true, true,
+                   false)), (String ((Ascii (true, true, false, false, true,
+                   true, true, false)), (String ((Ascii (true, true, false,
+                   false, true, true, true, false)), (String ((Ascii (true,
+                   false, false, true, false, true, true, false)), (String
+                   ((Ascii (true, true, true, true, false, true, true,
+                   false)), (String ((Ascii (false, true, true, true, false,
+                   true, true, false)), (String ((Ascii (false, true, true,
+                   true, false, true, false, false)),
+                   EmptyString))))))))))))))))))))))))))))))))))))))))))))))))))))))))))))))))))))))))))))))))))))))))))))))))))))))))))))))))))))))))))))))))))))
+                   s))
+         | _ -> s
+       in
        let (p, modifiers) =
          match e with
          | Arr elems ->
@@ -2198,7 +2785,7 @@ let parse_v_model value is_component argument splitted s =
         else argument0),
        (match modifiers with
         | Some m -> transform_modifiers m is_component
-        | None -> None), value')), s))
+        | None -> None), value')), s0))
   | _ ->
     let s0 =
       add_diag (String ((Ascii (true, false, false, true, true, false, true,
@@ -2260,6 +2847,269 @@ let parse_v_model value is_component argument splitted s =
         (false, true, true, true, false, true, false, false)),
         EmptyString))))))))))))))))))))))))))))))))))))))))))))))))))))))))))))))))))))))))))))))))))))))))))))))))))))))))))
         s
+    in
+    let s1 =
+      match empty_ident with
+      | Arr elems ->
+        (match elems with
+         | [] ->
+           add_diag (String ((Ascii (false, false, true, false, true, false,
+             true, false)), (String ((Ascii (false, false, false, true,
+             false, true, true, false)), (String ((Ascii (true, false, true,
+             false, false, true, true, false)), (String ((Ascii (false,
+             false, false, false, false, true, false, false)), (String
+             ((Ascii (false, true, true, false, false, true, true, false)),
+             (String ((Ascii (true, false, false, true, false, true, true,
+             false)), (String ((Ascii (false, true, false, false, true, true,
+             true, false)), (String ((Ascii (true, true, false, false, true,
+             true, true, false)), (String ((Ascii (false, false, true, false,
+             true, true, true, false)), (String ((Ascii (false, false, false,
+             false, false, true, false, false)), (String ((Ascii (true,
+             false, true, false, false, true, true, false)), (String ((Ascii
+             (false, false, true, true, false, true, true, false)), (String
+             ((Ascii (true, false, true, false, false, true, true, false)),
+             (String ((Ascii (true, false, true, true, false, true, true,
+             false)), (String ((Ascii (true, false, true, false, false, true,
+             true, false)), (String ((Ascii (false, true, true, true, false,
+             true, true, false)), (String ((Ascii (false, false, true, false,
+             true, true, true, false)), (String ((Ascii (false, false, false,
+             false, false, true, false, false)), (String ((Ascii (true, true,
+             true, true, false, true, true, false)), (String ((Ascii (false,
+             true, true, false, false, true, true, false)), (String ((Ascii
+             (false, false, false, false, false, true, false, false)),
+             (String ((Ascii (false, false, false, false, false, true, true,
+             false)), (String ((Ascii (false, true, true, false, true, true,
+             true, false)), (String ((Ascii (true, false, true, true, false,
+             true, false, false)), (String ((Ascii (true, false, true, true,
+             false, true, true, false)), (String ((Ascii (true, true, true,
+             true, false, true, true, false)), (String ((Ascii (false, false,
+             true, false, false, true, true, false)), (String ((Ascii (true,
+             false, true, false, false, true, true, false)), (String ((Ascii
+             (false, false, true, true, false, true, true, false)), (String
+             ((Ascii (false, false, false, false, false, true, true, false)),
+             (String ((Ascii (false, false, false, false, false, true, false,
+             false)), (String ((Ascii (true, false, false, false, false,
+             true, true, false)), (String ((Ascii (false, true, false, false,
+             true, true, true, false)), (String ((Ascii (false, true, false,
+             false, true, true, true, false)), (String ((Ascii (true, false,
+             false, false, false, true, true, false)), (String ((Ascii (true,
+             false, false, true, true, true, true, false)), (String ((Ascii
+             (false, false, false, false, false, true, false, false)),
+             (String ((Ascii (true, false, true, true, false, true, true,
+             false)), (String ((Ascii (true, false, true, false, true, true,
+             true, false)), (String ((Ascii (true, true, false, false, true,
+             true, true, false)), (String ((Ascii (false, false, true, false,
+             true, true, true, false)), (String ((Ascii (false, false, false,
+             false, false, true, false, false)), (String ((Ascii (false,
+             true, false, false, false, true, true, false)), (String ((Ascii
+             (true, false, true, false, false, true, true, false)), (String
+             ((Ascii (false, false, false, false, false, true, false,
+             false)), (String ((Ascii (false, false, true, false, true, true,
+             true, false)), (String ((Ascii (false, false, false, true,
+             false, true, true, false)), (String ((Ascii (true, false, true,
+             false, false, true, true, false)), (String ((Ascii (false,
+             false, false, false, false, true, false, false)), (String
+             ((Ascii (false, true, false, false, false, true, true, false)),
+             (String ((Ascii (true, true, true, true, false, true, true,
+             false)), (String ((Ascii (true, false, true, false, true, true,
+             true, false)), (String ((Ascii (false, true, true, true, false,
+             true, true, false)), (String ((Ascii (false, false, true, false,
+             false, true, true, false)), (String ((Ascii (false, false,
+             false, false, false, true, false, false)), (String ((Ascii
+             (true, false, true, false, false, true, true, false)), (String
+             ((Ascii (false, false, false, true, true, true, true, false)),
+             (String ((Ascii (false, false, false, false, true, true, true,
+             false)), (String ((Ascii (false, true, false, false, true, true,
+             true, false)), (String ((Ascii (true, false, true, false, false,
+             true, true, false)), (String ((Ascii (true, true, false, false,
+             true, true, true, false)), (String ((Ascii (true, true, false,
+             false, true, true, true, false)), (String ((Ascii (true, false,
+             false, true, false, true, true, false)), (String ((Ascii (true,
+             true, true, true, false, true, true, false)), (String ((Ascii
+             (false, true, true, true, false, true, true, false)), (String
+             ((Ascii (false, true, true, true, false, true, false, false)),
+             EmptyString))))))))))))))))))))))))))))))))))))))))))))))))))))))))))))))))))))))))))))))))))))))))))))))))))))))))))))))))))))))))))))))))))))
+             s0
+         | n :: _ ->
+           (match n with
+            | Elem (spread, _) ->
+              if spread
+              then add_diag (String ((Ascii (false, false, true, false, true,
+                     false, true, false)), (String ((Ascii (false, false,
+                     false, true, false, true, true, false)), (String ((Ascii
+                     (true, false, true, false, false, true, true, false)),
+                     (String ((Ascii (false, false, false, false, false,
+                     true, false, false)), (String ((Ascii (false, true,
+                     true, false, false, true, true, false)), (String ((Ascii
+                     (true, false, false, true, false, true, true, false)),
+                     (String ((Ascii (false, true, false, false, true, true,
+                     true, false)), (String ((Ascii (true, true, false,
+                     false, true, true, true, false)), (String ((Ascii
+                     (false, false, true, false, true, true, true, false)),
+                     (String ((Ascii (false, false, false, false, false,
+                     true, false, false)), (String ((Ascii (true, false,
+                     true, false, false, true, true, false)), (String ((Ascii
+                     (false, false, true, true, false, true, true, false)),
+                     (String ((Ascii (true, false, true, false, false, true,
+                     true, false)), (String ((Ascii (true, false, true, true,
+                     false, true, true, false)), (String ((Ascii (true,
+                     false, true, false, false, true, true, false)), (String
+                     ((Ascii (false, true, true, true, false, true, true,
+                     false)), (String ((Ascii (false, false, true, false,
+                     true, true, true, false)), (String ((Ascii (false,
+                     false, false, false, false, true, false, false)),
+                     (String ((Ascii (true, true, true, true, false, true,
+                     true, false)), (String ((Ascii (false, true, true,
+                     false, false, true, true, false)), (String ((Ascii
+                     (false, false, false, false, false, true, false,
+                     false)), (String ((Ascii (false, false, false, false,
+                     false, true, true, false)), (String ((Ascii (false,
+                     true, true, false, true, true, true, false)), (String
+                     ((Ascii (true, false, true, true, false, true, false,
+                     false)), (String ((Ascii (true, false, true, true,
+                     false, true, true, false)), (String ((Ascii (true, true,
+                     true, true, false, true, true, false)), (String ((Ascii
+                     (false, false, true, false, false, true, true, false)),
+                     (String ((Ascii (true, false, true, false, false, true,
+                     true, false)), (String ((Ascii (false, false, true,
+                     true, false, true, true, false)), (String ((Ascii
+                     (false, false, false, false, false, true, true, false)),
+                     (String ((Ascii (false, false, false, false, false,
+                     true, false, false)), (String ((Ascii (true, false,
+                     false, false, false, true, true, false)), (String
+                     ((Ascii (false, true, false, false, true, true, true,
+                     false)), (String ((Ascii (false, true, false, false,
+                     true, true, true, false)), (String ((Ascii (true, false,
+                     false, false, false, true, true, false)), (String
+                     ((Ascii (true, false, false, true, true, true, true,
+                     false)), (String ((Ascii (false, false, false, false,
+                     false, true, false, false)), (String ((Ascii (true,
+                     false, true, true, false, true, true, false)), (String
+                     ((Ascii (true, false, true, false, true, true, true,
+                     false)), (String ((Ascii (true, true, false, false,
+                     true, true, true, false)), (String ((Ascii (false,
+                     false, true, false, true, true, true, false)), (String
+                     ((Ascii (false, false, false, false, false, true, false,
+                     false)), (String ((Ascii (false, true, false, false,
+                     false, true, true, false)), (String ((Ascii (true,
+                     false, true, false, false, true, true, false)), (String
+                     ((Ascii (false, false, false, false, false, true, false,
+                     false)), (String ((Ascii (false, false, true, false,
+                     true, true, true, false)), (String ((Ascii (false,
+                     false, false, true, false, true, true, false)), (String
+                     ((Ascii (true, false, true, false, false, true, true,
+                     false)), (String ((Ascii (false, false, false, false,
+                     false, true, false, false)), (String ((Ascii (false,
+                     true, false, false, false, true, true, false)), (String
+                     ((Ascii (true, true, true, true, false, true, true,
+                     false)), (String ((Ascii (true, false, true, false,
+                     true, true, true, false)), (String ((Ascii (false, true,
+                     true, true, false, true, true, false)), (String ((Ascii
+                     (false, false, true, false, false, true, true, false)),
+                     (String ((Ascii (false, false, false, false, false,
+                     true, false, false)), (String ((Ascii (true, false,
+                     true, false, false, true, true, false)), (String ((Ascii
+                     (false, false, false, true, true, true, true, false)),
+                     (String ((Ascii (false, false, false, false, true, true,
+                     true, false)), (String ((Ascii (false, true, false,
+                     false, true, true, true, false)), (String ((Ascii (true,
+                     false, true, false, false, true, true, false)), (String
+                     ((Ascii (true, true, false, false, true, true, true,
+                     false)), (String ((Ascii (true, true, false, false,
+                     true, true, true, false)), (String ((Ascii (true, false,
+                     false, true, false, true, true, false)), (String ((Ascii
+                     (true, true, true, true, false, true, true, false)),
+                     (String ((Ascii (false, true, true, true, false, true,
+                     true, false)), (String ((Ascii (false, true, true, true,
+                     false, true, false, false)),
+                     EmptyString))))))))))))))))))))))))))))))))))))))))))))))))))))))))))))))))))))))))))))))))))))))))))))))))))))))))))))))))))))))))))))))))))))
+                     s0
+              else s0
+            | _ ->
+              add_diag (String ((Ascii (false, false, true, false, true,
+                false, true, false)), (String ((Ascii (false, false, false,
+                true, false, true, true, false)), (String ((Ascii (true,
+                false, true, false, false, true, true, false)), (String
+                ((Ascii (false, false, false, false, false, true, false,
+                false)), (String ((Ascii (false, true, true, false, false,
+                true, true, false)), (String ((Ascii (true, false, false,
+                true, false, true, true, false)), (String ((Ascii (false,
+                true, false, false, true, true, true, false)), (String
+                ((Ascii (true, true, false, false, true, true, true, false)),
+                (String ((Ascii (false, false, true, false, true, true, true,
+                false)), (String ((Ascii (false, false, false, false, false,
+                true, false, false)), (String ((Ascii (true, false, true,
+                false, false, true, true, false)), (String ((Ascii (false,
+                false, true, true, false, true, true, false)), (String
+                ((Ascii (true, false, true, false, false, true, true,
+                false)), (String ((Ascii (true, false, true, true, false,
+                true, true, false)), (String ((Ascii (true, false, true,
+                false, false, true, true, false)), (String ((Ascii (false,
+                true, true, true, false, true, true, false)), (String ((Ascii
+                (false, false, true, false, true, true, true, false)),
+                (String ((Ascii (false, false, false, false, false, true,
+                false, false)), (String ((Ascii (true, true, true, true,
+                false, true, true, false)), (String ((Ascii (false, true,
+                true, false, false, true, true, false)), (String ((Ascii
+                (false, false, false, false, false, true, false, false)),
+                (String ((Ascii (false, false, false, false, false, true,
+                true, false)), (String ((Ascii (false, true, true, false,
+                true, true, true, false)), (String ((Ascii (true, false,
+                true, true, false, true, false, false)), (String ((Ascii
+                (true, false, true, true, false, true, true, false)), (String
+                ((Ascii (true, true, true, true, false, true, true, false)),
+                (String ((Ascii (false, false, true, false, false, true,
+                true, false)), (String ((Ascii (true, false, true, false,
+                false, true, true, false)), (String ((Ascii (false, false,
+                true, true, false, true, true, false)), (String ((Ascii
+                (false, false, false, false, false, true, true, false)),
+                (String ((Ascii (false, false, false, false, false, true,
+                false, false)), (String ((Ascii (true, false, false, false,
+                false, true, true, false)), (String ((Ascii (false, true,
+                false, false, true, true, true, false)), (String ((Ascii
+                (false, true, false, false, true, true, true, false)),
+                (String ((Ascii (true, false, false, false, false, true,
+                true, false)), (String ((Ascii (true, false, false, true,
+                true, true, true, false)), (String ((Ascii (false, false,
+                false, false, false, true, false, false)), (String ((Ascii
+                (true, false, true, true, false, true, true, false)), (String
+                ((Ascii (true, false, true, false, true, true, true, false)),
+                (String ((Ascii (true, true, false, false, true, true, true,
+                false)), (String ((Ascii (false, false, true, false, true,
+                true, true, false)), (String ((Ascii (false, false, false,
+                false, false, true, false, false)), (String ((Ascii (false,
+                true, false, false, false, true, true, false)), (String
+                ((Ascii (true, false, true, false, false, true, true,
+                false)), (String ((Ascii (false, false, false, false, false,
+                true, false, false)), (String ((Ascii (false, false, true,
+                false, true, true, true, false)), (String ((Ascii (false,
+                false, false, true, false, true, true, false)), (String
+                ((Ascii (true, false, true, false, false, true, true,
+                false)), (String ((Ascii (false, false, false, false, false,
+                true, false, false)), (String ((Ascii (false, true, false,
+                false, false, true, true, false)), (String ((Ascii (true,
+                true, true, true, false, true, true, false)), (String ((Ascii
+                (true, false, true, false, true, true, true, false)), (String
+                ((Ascii (false, true, true, true, false, true, true, false)),
+                (String ((Ascii (false, false, true, false, false, true,
+                true, false)), (String ((Ascii (false, false, false, false,
+                false, true, false, false)), (String ((Ascii (true, false,
+                true, false, false, true, true, false)), (String ((Ascii
+                (false, false, false, true, true, true, true, false)),
+                (String ((Ascii (false, false, false, false, true, true,
+                true, false)), (String ((Ascii (false, true, false, false,
+                true, true, true, false)), (String ((Ascii (true, false,
+                true, false, false, true, true, false)), (String ((Ascii
+                (true, true, false, false, true, true, true, false)), (String
+                ((Ascii (true, true, false, false, true, true, true, false)),
+                (String ((Ascii (true, false, false, true, false, true, true,
+                false)), (String ((Ascii (true, true, true, true, false,
+                true, true, false)), (String ((Ascii (false, true, true,
+                true, false, true, true, false)), (String ((Ascii (false,
+                true, true, true, false, true, false, false)),
+                EmptyString))))))))))))))))))))))))))))))))))))))))))))))))))))))))))))))))))))))))))))))))))))))))))))))))))))))))))))))))))))))))))))))))))))
+                s0))
+      | _ -> s0
     in
     let (p, modifiers) =
       match empty_ident with
@@ -3186,7 +4036,7 @@ let parse_v_model value is_component argument splitted s =
      else argument0),
     (match modifiers with
      | Some m -> transform_modifiers m is_component
-     | None -> None), value')), s0)
+     | None -> None), value')), s1)
 
 (** val parse_v_slots : node -> directive **)
 
